@@ -1,11 +1,775 @@
 package interp
 
-// Symbolic documents (stage 2).  Placeholder; see stage2.go.
+// Symbolic documents and the decode stubs for encoding/json and yaml.v3 (DESIGN §5.1, §5.3).
+//
+// A document is a lazily grown tree of nodes.  Every node has symbolic attributes named
+// after its path (so that the harness' reference model and the decode stub talk about the
+// same variables regardless of the order in which they touch the node):
+//
+//	kind  : BitVec 8  -- 0 absent, 1 null, 2 bool, 3 number, 4 string, 5 array, 6 object
+//	b     : Bool
+//	i     : BitVec 64 -- the number when it is decoded into an integer type (requires isint)
+//	isint : Bool      -- the number is integral
+//	f     : float64   -- the number when it is decoded into float64 / interface{}
+//	s     : string atom (blen, rlen, match predicates)
+//	len   : BitVec 64 -- array length, 0..N
+//
+// Stated modelling assumptions: numbers are int64/float64 values (no arbitrary-precision
+// decimals, integers within [-2^63, 2^63)); i and f are two views of a node that no single
+// decode uses together; no duplicate keys; no keys that differ from a declared key only by
+// case; strings are valid UTF-8.
 
-type docMap struct{}
+import (
+	"fmt"
+	"go/types"
+	"reflect"
+	"strings"
+)
 
-func (d *docMap) length() value { panic(unsupported("docMap.length")) }
+const (
+	kAbsent = 0
+	kNull   = 1
+	kBool   = 2
+	kNumber = 3
+	kString = 4
+	kArray  = 5
+	kObject = 6
+)
 
-type docNode struct{}
+type docNode struct {
+	e     *Explorer
+	doc   int
+	path  string
+	kids  map[string]*docNode
+	root  *docNode
+	isTop bool
+}
 
-type Stage2 struct{}
+func (e *Explorer) newDoc() *docNode {
+	n := &docNode{e: e, doc: len(e.docs), kids: map[string]*docNode{}, isTop: true}
+	n.root = n
+	e.docs = append(e.docs, n)
+	k := n.kind()
+	// a document is never "absent"; kind in 1..6
+	e.PC = append(e.PC, "(bvuge "+k.t+" #x01)", "(bvule "+k.t+" #x06)")
+	return n
+}
+
+func (n *docNode) name(attr string) string {
+	p := strings.NewReplacer("/", "!", "+", "x", " ", "_", "-", "_", ".", "_", "$", "S").Replace(n.path)
+	var sb strings.Builder
+	for _, r := range p {
+		if (r >= 'a' && r <= 'z') || (r >= 'A' && r <= 'Z') || (r >= '0' && r <= '9') || r == '!' || r == '_' {
+			sb.WriteRune(r)
+		} else {
+			fmt.Fprintf(&sb, "u%x", r)
+		}
+	}
+	return fmt.Sprintf("d%d!%s.%s", n.doc, sb.String(), attr)
+}
+
+func (n *docNode) child(key string) *docNode {
+	if c, ok := n.kids[key]; ok {
+		return c
+	}
+	p := key
+	if n.path != "" {
+		p = n.path + "/" + key
+	}
+	c := &docNode{e: n.e, doc: n.doc, path: p, kids: map[string]*docNode{}, root: n.root}
+	n.kids[key] = c
+	k := c.kind()
+	n.e.PC = append(n.e.PC, "(bvule "+k.t+" #x06)")
+	return c
+}
+
+// at resolves a slash-separated path below n.
+func (n *docNode) at(path string) *docNode {
+	cur := n
+	if path == "" {
+		return cur
+	}
+	for _, p := range strings.Split(path, "/") {
+		cur = cur.child(p)
+	}
+	return cur
+}
+
+func (n *docNode) kind() sym { return n.e.named(n.name("kind"), sBV, 8) }
+func (n *docNode) boolv() sym { return n.e.named(n.name("b"), sBool, 0) }
+func (n *docNode) intv() sym {
+	name := n.name("i")
+	if _, ok := n.e.gridParam(); ok {
+		if !n.e.declared[name] {
+			n.e.declare(name, sInt, 0)
+			lim := fmt.Sprint(int64(1) << uint(n.e.gridMag()))
+			n.e.PC = append(n.e.PC, "(<= (- "+lim+") "+name+")", "(<= "+name+" "+lim+")")
+		}
+		return sym{sInt, 0, name}
+	}
+	return n.e.named(name, sBV, 64)
+}
+func (n *docNode) isint() sym { return n.e.named(n.name("isint"), sBool, 0) }
+func (n *docNode) strv() sym  { return n.e.named(n.name("s"), sStr, 0) }
+
+func (n *docNode) floatv() sym {
+	name := n.name("f")
+	if g, ok := n.e.gridParam(); ok {
+		_ = g
+		if !n.e.declared[name] {
+			n.e.declare(name, sStr, 0)
+			lim := fmt.Sprint(int64(1) << uint(n.e.gridMag()+gridBits))
+			n.e.PC = append(n.e.PC, "(<= (- "+lim+") "+name+")", "(<= "+name+" "+lim+")")
+		}
+		return sym{sReal, 0, name}
+	}
+	return n.e.named(name, sF64, 0)
+}
+
+func (n *docNode) lenv() sym {
+	name := n.name("len")
+	fresh := !n.e.declared[name]
+	s := n.e.named(name, sBV, 64)
+	if fresh {
+		n.e.PC = append(n.e.PC, "(bvule "+s.t+" "+bvLit(64, uint64(n.e.docMaxLen()))+")")
+	}
+	return s
+}
+
+func (n *docNode) kindIs(k int) sym {
+	return symEq(n.kind(), sym{sBV, 8, bvLit(8, uint64(k))})
+}
+
+func (e *Explorer) gridParam() (int, bool) {
+	if e.params == nil {
+		return 0, false
+	}
+	g, ok := e.params["GRID"]
+	return g, ok && g >= 0
+}
+
+func (e *Explorer) gridMag() int {
+	if r := e.params["GRIDMAG"]; r != 0 {
+		return r
+	}
+	return 36
+}
+
+func (e *Explorer) docMaxLen() int {
+	if n, ok := e.params["N"]; ok {
+		return n
+	}
+	return 3
+}
+
+func (e *Explorer) docExtra() int {
+	if n, ok := e.params["E"]; ok {
+		return n
+	}
+	return 1
+}
+
+// docRef is the interpreter value standing for the bytes (or *yaml.Node) of a document node.
+type docRef struct {
+	n      *docNode
+	isNull bool // a literal "null" handed to an Unmarshaler by the decoder
+}
+
+// docVal is a decoded interface{} value whose dynamic type is still symbolic (only
+// comparisons with nil are supported without forcing it).
+type docVal struct{ n *docNode }
+
+// docMap is the map[string]interface{} view of an object node.
+type docMap struct {
+	n       *docNode
+	deleted map[string]bool
+}
+
+func (d *docMap) length() value { panic(unsupported("len of a symbolic document map")) }
+
+func (d *docMap) lookup(commaOk bool, idx value) value {
+	k, ok := idx.(string)
+	if !ok {
+		panic(unsupported("symbolic key into a document map"))
+	}
+	c := d.n.child(k)
+	present := symNot(c.kindIs(kAbsent))
+	if d.deleted[k] {
+		present = mkBool("false")
+	}
+	var v value = docVal{c}
+	if commaOk {
+		return tuple{v, simplifyBool(present)}
+	}
+	return v
+}
+
+// docValIsNil: a raw-map value is nil iff the member is null (or absent: zero value).
+func docValIsNil(v docVal) sym {
+	return symOr(v.n.kindIs(kNull), v.n.kindIs(kAbsent))
+}
+
+// ---- decode ----
+
+type decodeCtx struct {
+	i      *interpreter
+	fr     *frame
+	yaml   bool
+	tag    string
+	errAcc sym // symbolic "a type error occurred"
+}
+
+// jsonUnmarshal models json.Unmarshal(data, &target) / (*yaml.Node).Decode(&target).
+func (i *interpreter) docDecode(fr *frame, ref docRef, target iface, yaml bool) value {
+	x := i.x
+	n := ref.n
+	pt, ok := target.t.Underlying().(*types.Pointer)
+	if !ok {
+		return i.mkError("json: Unmarshal(non-pointer " + typeString(target.t) + ")")
+	}
+	cell, _ := target.v.(*value)
+	if cell == nil {
+		return i.mkError("json: Unmarshal(nil " + typeString(target.t) + ")")
+	}
+	if n.isTop && !yaml {
+		mal := x.named(fmt.Sprintf("d%d!malformed", n.doc), sBool, 0)
+		if x.decide(mal) {
+			return i.mkError("invalid character (malformed JSON)")
+		}
+	}
+	ctx := &decodeCtx{i: i, fr: fr, yaml: yaml, tag: "json", errAcc: mkBool("false")}
+	if yaml {
+		ctx.tag = "yaml"
+	}
+	if ref.isNull {
+		// literal null handed down by the decoder: like a null node
+		ctx.decodeNull(pt.Elem(), cell)
+		return iface{}
+	}
+	if err := ctx.decode(n, pt.Elem(), cell, true); err != nil {
+		return err
+	}
+	if x.decide(ctx.errAcc) {
+		return i.mkError("json: cannot unmarshal value into Go value (type mismatch)")
+	}
+	return iface{}
+}
+
+func (c *decodeCtx) decodeNull(t types.Type, cell *value) {
+	switch t.Underlying().(type) {
+	case *types.Pointer, *types.Slice, *types.Map, *types.Interface:
+		*cell = zero(t)
+	}
+}
+
+// unmarshalerOf returns the custom unmarshal method of *t, if any.
+func (c *decodeCtx) unmarshalerOf(t types.Type) *types.Func {
+	name := "UnmarshalJSON"
+	if c.yaml {
+		name = "UnmarshalYAML"
+	}
+	if _, isNamed := types.Unalias(t).(*types.Named); !isNamed {
+		return nil
+	}
+	ms := c.i.prog.MethodSets.MethodSet(types.NewPointer(t))
+	sel := ms.Lookup(nil, name)
+	if sel == nil {
+		// exported methods have no package qualifier; Lookup(nil, ...) finds them
+		return nil
+	}
+	f, _ := sel.Obj().(*types.Func)
+	return f
+}
+
+// decode fills *cell (of type t) from node n.  It returns a non-nil interpreter error value
+// when a nested custom unmarshaler failed on this path; plain type mismatches are
+// accumulated symbolically in c.errAcc.
+func (c *decodeCtx) decode(n *docNode, t types.Type, cell *value, top bool) value {
+	x := c.i.x
+	// custom unmarshalers first (encoding/json's indirect())
+	if _, isPtr := t.Underlying().(*types.Pointer); !isPtr {
+		if mf := c.unmarshalerOf(t); mf != nil {
+			return c.callUnmarshaler(n, t, cell, mf, top)
+		}
+	}
+	switch u := t.Underlying().(type) {
+	case *types.Pointer:
+		// absent/null -> nil (untouched nil for absent); otherwise allocate and decode
+		nilCond := symOr(n.kindIs(kAbsent), n.kindIs(kNull))
+		if x.decide(nilCond) {
+			if x.decide(n.kindIs(kNull)) {
+				*cell = zero(t)
+			}
+			return nil
+		}
+		p, _ := (*cell).(*value)
+		if p == nil {
+			nv := zero(u.Elem())
+			p = &nv
+			*cell = p
+		}
+		return c.decode(n, u.Elem(), p, false)
+	case *types.Basic:
+		c.decodeBasic(n, t, u, cell)
+		return nil
+	case *types.Interface:
+		if !u.Empty() {
+			panic(unsupported("decode into non-empty interface " + typeString(t)))
+		}
+		c.decodeIface(n, cell)
+		return nil
+	case *types.Slice:
+		if b, ok := u.Elem().Underlying().(*types.Basic); ok && b.Kind() == types.Uint8 {
+			panic(unsupported("decode into []byte"))
+		}
+		isArr := n.kindIs(kArray)
+		nilCond := symOr(n.kindIs(kAbsent), n.kindIs(kNull))
+		if x.decide(nilCond) {
+			if x.decide(n.kindIs(kNull)) {
+				*cell = zero(t)
+			}
+			return nil
+		}
+		if !x.decide(isArr) {
+			c.errAcc = mkBool("true")
+			return nil
+		}
+		ln := c.forkLen(n)
+		out := make([]value, ln)
+		for k := 0; k < ln; k++ {
+			out[k] = zero(u.Elem())
+			// array elements are never absent
+			el := n.child(fmt.Sprint(k))
+			x.assumeQuiet(symNot(el.kindIs(kAbsent)))
+			if err := c.decode(el, u.Elem(), &out[k], false); err != nil {
+				return err
+			}
+		}
+		*cell = out
+		return nil
+	case *types.Struct:
+		skip := symOr(n.kindIs(kAbsent), n.kindIs(kNull))
+		if x.decide(skip) {
+			return nil
+		}
+		if !x.decide(n.kindIs(kObject)) {
+			c.errAcc = mkBool("true")
+			return nil
+		}
+		st, _ := (*cell).(structure)
+		if st == nil {
+			st = zero(t).(structure)
+			*cell = st
+		}
+		return c.decodeStruct(n, u, st)
+	case *types.Map:
+		nilCond := symOr(n.kindIs(kAbsent), n.kindIs(kNull))
+		if x.decide(nilCond) {
+			if x.decide(n.kindIs(kNull)) {
+				*cell = zero(t)
+			}
+			return nil
+		}
+		if !x.decide(n.kindIs(kObject)) {
+			c.errAcc = mkBool("true")
+			return nil
+		}
+		if kb, ok := u.Key().Underlying().(*types.Basic); !ok || kb.Kind() != types.String {
+			panic(unsupported("decode into map with non-string keys"))
+		}
+		if ie, ok := u.Elem().Underlying().(*types.Interface); ok && ie.Empty() {
+			*cell = &docMap{n: n, deleted: map[string]bool{}}
+			return nil
+		}
+		// typed map: E extra members decoded eagerly into a symMap
+		sm := &symMap{n: n, elem: u.Elem()}
+		for k := 0; k < x.docExtra(); k++ {
+			el := n.child(fmt.Sprintf("+%d", k))
+			var v value = zero(u.Elem())
+			present := symNot(el.kindIs(kAbsent))
+			if x.decide(present) {
+				if err := c.decode(el, u.Elem(), &v, false); err != nil {
+					return err
+				}
+				sm.keys = append(sm.keys, el)
+				sm.vals = append(sm.vals, v)
+			}
+		}
+		*cell = sm
+		return nil
+	}
+	panic(unsupported("decode into " + typeString(t)))
+}
+
+// symMap is a decoded map[string]T whose keys are the extra members of an object node.
+type symMap struct {
+	n    *docNode
+	elem types.Type
+	keys []*docNode
+	vals []value
+}
+
+func (c *decodeCtx) forkLen(n *docNode) int {
+	x := c.i.x
+	ln := n.lenv()
+	max := x.docMaxLen()
+	for k := 0; k < max; k++ {
+		if x.decide(symEq(ln, sym{sBV, 64, bvLit(64, uint64(k))})) {
+			return k
+		}
+	}
+	return max
+}
+
+func (c *decodeCtx) decodeBasic(n *docNode, t types.Type, b *types.Basic, cell *value) {
+	prior := *cell
+	untouched := symOr(n.kindIs(kAbsent), n.kindIs(kNull))
+	switch {
+	case b.Kind() == types.Bool:
+		match := n.kindIs(kBool)
+		*cell = simplifyBool(symIte(match, n.boolv(), asTerm(prior)))
+		c.errAcc = symOr(c.errAcc, symNot(symOr(untouched, match)))
+	case b.Kind() == types.String:
+		match := n.kindIs(kString)
+		r := symIte(match, n.strv(), asTerm(prior))
+		*cell = r
+		c.errAcc = symOr(c.errAcc, symNot(symOr(untouched, match)))
+	case b.Info()&types.IsInteger != 0:
+		match := n.kindIs(kNumber)
+		_, w, signed, _ := symSortOf(b)
+		iv := n.intv()
+		// representable in the target type (document integers are int64 values)
+		inRange := mkBool("true")
+		switch {
+		case iv.k == sInt:
+			var lo, hi string
+			switch {
+			case signed:
+				lo, hi = fmt.Sprintf("(- %d)", uint64(1)<<uint(w-1)), fmt.Sprint(uint64(1)<<uint(w-1)-1)
+			case w < 64:
+				lo, hi = "0", fmt.Sprint(uint64(1)<<uint(w)-1)
+			default:
+				lo, hi = "0", "18446744073709551615"
+			}
+			inRange = mkBool("(and (<= " + lo + " " + iv.t + ") (<= " + iv.t + " " + hi + "))")
+		case signed && w < 64:
+			lo := bvLit(64, uint64(-(int64(1) << uint(w-1))))
+			hi := bvLit(64, uint64((int64(1)<<uint(w-1))-1))
+			inRange = mkBool("(and (bvsle " + lo + " " + iv.t + ") (bvsle " + iv.t + " " + hi + "))")
+		case !signed && w < 64:
+			hi := bvLit(64, uint64(1)<<uint(w)-1)
+			inRange = mkBool("(and (bvsle #x0000000000000000 " + iv.t + ") (bvsle " + iv.t + " " + hi + "))")
+		case !signed:
+			inRange = mkBool("(bvsle #x0000000000000000 " + iv.t + ")")
+		}
+		conv := symConv(b, types.Typ[types.Int64], iv).(sym)
+		*cell = symIte(match, conv, asTerm(prior))
+		okNum := symAnd(match, symAnd(n.isint(), inRange))
+		c.errAcc = symOr(c.errAcc, symNot(symOr(untouched, okNum)))
+	case b.Kind() == types.Float64 || b.Kind() == types.Float32:
+		match := n.kindIs(kNumber)
+		*cell = symIte(match, n.floatv(), asTerm(prior))
+		c.errAcc = symOr(c.errAcc, symNot(symOr(untouched, match)))
+	default:
+		panic(unsupported("decode into basic type " + b.Name()))
+	}
+	_ = t
+}
+
+func (c *decodeCtx) decodeIface(n *docNode, cell *value) {
+	x := c.i.x
+	// the dynamic type is structural: fork on the kind
+	switch {
+	case x.decide(n.kindIs(kAbsent)):
+		// untouched
+	case x.decide(n.kindIs(kNull)):
+		*cell = iface{}
+	case x.decide(n.kindIs(kBool)):
+		*cell = iface{t: types.Typ[types.Bool], v: simplifyBool(n.boolv())}
+	case x.decide(n.kindIs(kNumber)):
+		if c.yaml {
+			// yaml.v3 decodes integral scalars into int and others into float64
+			if x.decide(n.isint()) {
+				*cell = iface{t: types.Typ[types.Int], v: n.intv()}
+			} else {
+				*cell = iface{t: types.Typ[types.Float64], v: n.floatv()}
+			}
+		} else {
+			*cell = iface{t: types.Typ[types.Float64], v: n.floatv()}
+		}
+	case x.decide(n.kindIs(kString)):
+		*cell = iface{t: types.Typ[types.String], v: n.strv()}
+	case x.decide(n.kindIs(kArray)):
+		ln := c.forkLen(n)
+		out := make([]value, ln)
+		for k := 0; k < ln; k++ {
+			el := n.child(fmt.Sprint(k))
+			x.assumeQuiet(symNot(el.kindIs(kAbsent)))
+			out[k] = iface{}
+			c.decodeIface(el, &out[k])
+		}
+		*cell = iface{t: c.i.m.sliceOfAny(), v: out}
+	default:
+		*cell = iface{t: c.i.m.mapOfAny(), v: &docMap{n: n, deleted: map[string]bool{}}}
+	}
+}
+
+func (c *decodeCtx) decodeStruct(n *docNode, u *types.Struct, st structure) value {
+	for k := 0; k < u.NumFields(); k++ {
+		f := u.Field(k)
+		tag := reflect.StructTag(u.Tag(k)).Get(c.tag)
+		if tag == "-" {
+			continue
+		}
+		name := f.Name()
+		if c.yaml {
+			name = strings.ToLower(name) // yaml.v3 default key
+		}
+		if tag != "" {
+			parts := strings.Split(tag, ",")
+			if parts[0] != "" {
+				name = parts[0]
+			}
+			if c.yaml {
+				for _, p := range parts[1:] {
+					if p == "inline" {
+						panic(unsupported("yaml inline field"))
+					}
+				}
+			}
+		}
+		if f.Anonymous() && tag == "" {
+			panic(unsupported("decode into embedded field"))
+		}
+		if !f.Exported() {
+			continue
+		}
+		if err := c.decode(n.child(name), f.Type(), &st[k], false); err != nil {
+			return err
+		}
+	}
+	return nil
+}
+
+// callUnmarshaler runs a custom UnmarshalJSON/UnmarshalYAML on the sub-document.
+func (c *decodeCtx) callUnmarshaler(n *docNode, t types.Type, cell *value, mf *types.Func, top bool) value {
+	x := c.i.x
+	if x.decide(n.kindIs(kAbsent)) {
+		return nil
+	}
+	fn := c.i.prog.FuncValue(mf)
+	if fn == nil {
+		panic(unsupported("no SSA for " + mf.FullName()))
+	}
+	if c.yaml {
+		// yaml.v3 does not call UnmarshalYAML for null nodes of non-pointer targets? It does
+		// call it (the node is passed); keep the call.
+	}
+	if *cell == nil {
+		*cell = zero(t)
+	}
+	if !c.i.m.interpreted(fn) {
+		return c.externalUnmarshaler(n, t, cell, mf)
+	}
+	ref := docRef{n: n}
+	res := call(c.i, c.fr, 0, fn, []value{cell, ref})
+	if e, ok := res.(iface); ok && e.t != nil {
+		return e
+	}
+	return nil
+}
+
+// externalUnmarshaler is the contract stub for library types with their own text formats
+// (time.Time, netip.Addr): a JSON string that satisfies the format predicate decodes, null
+// is a no-op, anything else is an error.  The decoded value is opaque.
+func (c *decodeCtx) externalUnmarshaler(n *docNode, t types.Type, cell *value, mf *types.Func) value {
+	x := c.i.x
+	if x.decide(n.kindIs(kNull)) {
+		return nil
+	}
+	if !x.decide(n.kindIs(kString)) {
+		return c.i.mkError("cannot unmarshal non-string into " + typeString(t))
+	}
+	pred := internPat("format:" + typeString(t))
+	ok := mkBool("(" + pred + " " + n.strv().t + ")")
+	if !x.decide(ok) {
+		return c.i.mkError("cannot parse value as " + typeString(t))
+	}
+	// mark the opaque value as "decoded from n": keep the struct but remember the source
+	c.i.x.opaqueSrc[cell] = n
+	return nil
+}
+
+func (m *Machine) sliceOfAny() types.Type {
+	return types.NewSlice(types.NewInterfaceType(nil, nil).Complete())
+}
+
+func (m *Machine) mapOfAny() types.Type {
+	return types.NewMap(types.Typ[types.String], types.NewInterfaceType(nil, nil).Complete())
+}
+
+// assumeQuiet adds a modelling constraint without a feasibility query.
+func (e *Explorer) assumeQuiet(c sym) {
+	if c.t != "true" {
+		e.PC = append(e.PC, c.t)
+	}
+}
+
+func (n *docNode) collect(out *[]DocNodeInfo) {
+	full := n.name("kind")
+	*out = append(*out, DocNodeInfo{Doc: n.doc, Path: n.path, Prefix: strings.TrimSuffix(full, ".kind")})
+	var keys []string
+	for k := range n.kids {
+		keys = append(keys, k)
+	}
+	sortStrings(keys)
+	for _, k := range keys {
+		n.kids[k].collect(out)
+	}
+}
+
+func sortStrings(s []string) {
+	for i := 1; i < len(s); i++ {
+		for j := i; j > 0 && s[j] < s[j-1]; j-- {
+			s[j], s[j-1] = s[j-1], s[j]
+		}
+	}
+}
+
+// BuildDocJSON renders document doc as JSON text under a solver model.
+func BuildDocJSON(nodes []DocNodeInfo, doc int, model map[string]string, grid int) (string, error) {
+	byPath := map[string]DocNodeInfo{}
+	kidsOf := map[string][]string{}
+	for _, n := range nodes {
+		if n.Doc != doc {
+			continue
+		}
+		byPath[n.Path] = n
+		if n.Path != "" {
+			parent := ""
+			if i := strings.LastIndex(n.Path, "/"); i >= 0 {
+				parent = n.Path[:i]
+			}
+			kidsOf[parent] = append(kidsOf[parent], n.Path)
+		}
+	}
+	if _, ok := byPath[""]; !ok {
+		return "", fmt.Errorf("document %d has no root", doc)
+	}
+	if mv, ok := modelVal(model, fmt.Sprintf("d%d!malformed", doc)); ok && mv.B {
+		return "{\"unterminated\": ", nil
+	}
+	var render func(path string) (string, bool)
+	render = func(path string) (string, bool) {
+		n := byPath[path]
+		kind := 0
+		if mv, ok := modelVal(model, n.Prefix+".kind"); ok {
+			kind = int(mv.U)
+		} else if path == "" {
+			kind = kObject
+		}
+		switch kind {
+		case kAbsent:
+			return "", false
+		case kNull:
+			return "null", true
+		case kBool:
+			if mv, ok := modelVal(model, n.Prefix+".b"); ok && mv.B {
+				return "true", true
+			}
+			return "false", true
+		case kNumber:
+			// which view was used?  prefer the one present in the model
+			_, hasI := model[n.Prefix+".i"]
+			_, hasF := model[n.Prefix+".f"]
+			isInt := true
+			if mv, ok := modelVal(model, n.Prefix+".isint"); ok {
+				isInt = mv.B
+			}
+			if hasI && isInt {
+				mv, _ := modelVal(model, n.Prefix+".i")
+				if mv.Kind == "int" {
+					return fmt.Sprint(mv.I), true
+				}
+				return fmt.Sprint(int64(mv.U)), true
+			}
+			if hasF {
+				mv, _ := modelVal(model, n.Prefix+".f")
+				f := mv.F
+				if mv.Kind == "int" {
+					f = float64(mv.I) / float64(uint64(1)<<uint(grid))
+				}
+				b, err := jsonMarshal(f)
+				if err != nil {
+					return "0", true
+				}
+				return string(b), true
+			}
+			if hasI {
+				// a non-integral number was wanted where only the integer view exists
+				mv, _ := modelVal(model, n.Prefix+".i")
+				return fmt.Sprintf("%d.5", int64(mv.U)), true
+			}
+			if !isInt {
+				return "0.5", true
+			}
+			return "0", true
+		case kString:
+			s := StringForModel(n.Prefix+".s", model)
+			b, _ := jsonMarshal(s)
+			return string(b), true
+		case kArray:
+			ln := 0
+			if mv, ok := modelVal(model, n.Prefix+".len"); ok {
+				ln = int(mv.U)
+			}
+			var parts []string
+			for k := 0; k < ln; k++ {
+				cp := fmt.Sprint(k)
+				if path != "" {
+					cp = path + "/" + cp
+				}
+				if _, ok := byPath[cp]; ok {
+					if t, ok := render(cp); ok {
+						parts = append(parts, t)
+						continue
+					}
+				}
+				parts = append(parts, "null")
+			}
+			return "[" + strings.Join(parts, ",") + "]", true
+		default: // object
+			var parts []string
+			for _, cp := range kidsOf[path] {
+				key := cp
+				if i := strings.LastIndex(cp, "/"); i >= 0 {
+					key = cp[i+1:]
+				}
+				t, ok := render(cp)
+				if !ok {
+					continue
+				}
+				if strings.HasPrefix(key, "+") {
+					key = "zzextra" + key[1:]
+				}
+				kb, _ := jsonMarshal(key)
+				parts = append(parts, string(kb)+":"+t)
+			}
+			return "{" + strings.Join(parts, ",") + "}", true
+		}
+	}
+	t, _ := render("")
+	return t, nil
+}
+
+func modelVal(model map[string]string, name string) (ModelValue, bool) {
+	raw, ok := model[name]
+	if !ok {
+		return ModelValue{}, false
+	}
+	mv, err := parseModelValue(raw)
+	if err != nil {
+		return ModelValue{}, false
+	}
+	return mv, true
+}
